@@ -17,10 +17,11 @@ func closedOK(err error) bool {
 
 func c10Run(w *W) {
 	kind := allKinds[w.Choose(simrt.SShape, len(allKinds))]
-	tran := []string{"msg", "inproc", "sim", "simipc"}[w.Choose(simrt.SShape, 4)]
+	tran := []string{"msg", "inproc", "sim", "simipc", "tcp", "ipc", "tls+tcp"}[w.Choose(simrt.SShape, 7)]
 	npeers := w.Choose(simrt.SShape, 3)
 	what := []string{"socket", "socket", "context", "dialer", "listener", "pipe"}[w.Choose(simrt.SShape, 6)]
-	stall := tran == "sim" || tran == "simipc"
+	stream := tran != "msg" && tran != "inproc"
+	stall := stream
 	stallers := 0
 	if stall {
 		stallers = w.Choose(simrt.SShape, 3)
@@ -46,7 +47,7 @@ func c10Run(w *W) {
 	})
 	mustSet(w, s, mangos.OptionReconnectTime, 50*time.Millisecond)
 	laddr := w.Addr(tran)
-	l, err := s.NewListener(laddr, nil)
+	l, err := s.NewListener(laddr, w.EpOpts(laddr, true, nil))
 	if err != nil {
 		w.Failf("HARNESS/newlistener", "%v", err)
 		return
@@ -89,7 +90,7 @@ func c10Run(w *W) {
 		ps := w.Sock(peerKind[kind])
 		peerSocks = append(peerSocks, ps)
 		all = append(all, ps)
-		if err := ps.Dial(laddr); err != nil {
+		if err := w.DialOn(ps, laddr); err != nil {
 			w.Failf("HARNESS/peer-dial", "%v", err)
 			return
 		}
@@ -98,7 +99,7 @@ func c10Run(w *W) {
 	// must not disturb this listener ("closing ... affects only that object")
 	if w.Choose(simrt.SShape, 3) == 0 {
 		s2 := w.Sock(kind)
-		err := s2.Listen(laddr)
+		err := w.ListenOn(s2, laddr)
 		if err == nil {
 			w.Failf("C10/second-listener-accepted", "a second socket could listen on %s while the first still does", laddr)
 			return
@@ -115,7 +116,7 @@ func c10Run(w *W) {
 			probe := w.Sock(peerKind[kind])
 			all = append(all, probe)
 			c := w.Do("probe.Dial", func() (interface{}, error) {
-				return nil, probe.DialOptions(laddr, map[string]interface{}{mangos.OptionDialAsynch: false})
+				return nil, probe.DialOptions(laddr, w.EpOpts(laddr, false, map[string]interface{}{mangos.OptionDialAsynch: false}))
 			})
 			c.Wait(time.Second)
 			ok = c.Returned() && c.Err == nil
@@ -129,7 +130,7 @@ func c10Run(w *W) {
 	// connections whose handshake never completes
 	var stalled []*NetConn
 	for i := 0; i < stallers; i++ {
-		c, err := nt.Dial(strings.TrimPrefix(laddr, tran+"://"))
+		c, err := nt.Dial(NetKey(laddr))
 		if err == nil {
 			if w.Choose(simrt.SProg, 2) == 0 {
 				c.Write([]byte{0, 'S', 'P'}) // part of a header
@@ -142,7 +143,7 @@ func c10Run(w *W) {
 	daddr := w.Addr(tran)
 	var d mangos.Dialer
 	if tran != "inproc" || true {
-		dd, err := s.NewDialer(daddr, map[string]interface{}{mangos.OptionDialAsynch: true})
+		dd, err := s.NewDialer(daddr, w.EpOpts(daddr, false, map[string]interface{}{mangos.OptionDialAsynch: true}))
 		if err == nil {
 			d = dd
 			if asyncDial {
@@ -187,7 +188,7 @@ func c10Run(w *W) {
 	lateAccepted := false
 	if stall && what == "socket" && w.Choose(simrt.SProg, 2) == 0 {
 		haddr := w.Addr(tran)
-		if hl, err := nt.Listen(strings.TrimPrefix(haddr, tran+"://")); err == nil {
+		if hl, err := nt.Listen(NetKey(haddr)); err == nil {
 			lateRelease = w.NewEvent()
 			w.Go("late peer", func() {
 				c, err := hl.AcceptSim()
@@ -201,7 +202,7 @@ func c10Run(w *W) {
 			})
 			w.OnCleanup(func() { hl.Close() })
 			fl = append(fl, inflight{w.Do("DialOptions(late peer)", func() (interface{}, error) {
-				return nil, s.DialOptions(haddr, map[string]interface{}{mangos.OptionDialAsynch: true, mangos.OptionReconnectTime: time.Hour})
+				return nil, s.DialOptions(haddr, w.EpOpts(haddr, false, map[string]interface{}{mangos.OptionDialAsynch: true, mangos.OptionReconnectTime: time.Hour}))
 			}), false})
 			w.Fault("hs-stall")
 		}
@@ -216,7 +217,7 @@ func c10Run(w *W) {
 			ps := w.Sock(peerKind[kind])
 			all = append(all, ps)
 			paddr = w.Addr(tran)
-			if err := ps.Listen(paddr); err != nil {
+			if err := w.ListenOn(ps, paddr); err != nil {
 				paddr = ""
 			}
 		}
@@ -477,14 +478,14 @@ func c10Run(w *W) {
 		return
 	}
 	// listening addresses can be bound again
-	if tran == "sim" || tran == "simipc" {
-		if nt.Listening(strings.TrimPrefix(laddr, tran+"://")) {
+	if stream {
+		if nt.Listening(NetKey(laddr)) {
 			w.Failf("C10/address-still-bound", "%s is still bound after Close", laddr)
 		}
 	}
 	if tran == "inproc" {
 		s2 := w.Sock(kind)
-		if err := s2.Listen(laddr); err != nil {
+		if err := w.ListenOn(s2, laddr); err != nil {
 			w.Failf("C10/address-still-bound", "%s cannot be bound again after Close: %v", laddr, err)
 		}
 		s2.Close()
